@@ -14,12 +14,13 @@ import (
 	"bebopverif/internal/wire"
 
 	"golang.org/x/tools/go/cfg"
+	"golang.org/x/tools/go/packages"
 )
 
 func init() { register("C18", checkC18) }
 
 func checkC18(c *core.Ctx) {
-	c.Explainf("C18 (decided clauses). R1 worklist discipline in File.Generate: imports are appended to the worklist only past the miss edge of the `imported[path]` test and the path is marked imported on that path, so every file's imports are expanded once and the loop is bounded by the number of distinct paths. R2: the directory an import path is joined to depends on the worklist element (the importing file), not on a value computed once from the root file. R3 DFS discipline in dgraph.findCycle: the node is pushed on the stack on entry and popped on every non-cycle exit, the cycle test consults the stack before recursing, and nodes already fully explored are not descended into again (otherwise shared sub-graphs are re-walked exponentially). R4: both import modes cover every definition kind of File (combined mode appends every slice-typed field of File but Imports; separate mode namespaces and appends every record/enum kind), and FindCycle runs iff the mode is separate, before any output is written. R5: a graph edge is added for every import occurrence, before the de-duplication `continue`. R6: the generator's source, folded by the evaluator over an import scenario (root -> sub/a.bop -> b.bop next to a) served from a virtual file system, opens each file relative to its importer, and in both modes the emitted file type-checks; combined mode declares every type the imported files define. NOT decided: 'exactly when cyclic' for files without go_package (node \"\"); wire equivalence with the inlined schema (C01-C03 on the concatenation).")
+	c.Explainf("C18 (decided clauses). R1 worklist discipline in File.Generate: imports are appended to the worklist only past the miss edge of the `imported[path]` test and the path is marked imported on that path, so every file's imports are expanded once and the loop is bounded by the number of distinct paths. R2: the directory an import path is joined to depends on the worklist element (the importing file), not on a value computed once from the root file. R3 DFS discipline in dgraph.findCycle: the node is pushed on the stack on entry and popped on every non-cycle exit, the cycle test consults the stack before recursing, and nodes already fully explored are not descended into again (otherwise shared sub-graphs are re-walked exponentially). R4: both import modes cover every definition kind of File (combined mode appends every slice-typed field of File but Imports; separate mode namespaces and appends every record/enum kind), and FindCycle runs iff the mode is separate, before any output is written. R5: a graph edge is added for every import occurrence, before the de-duplication `continue`. R6: the generator's source, folded by the evaluator over an import scenario (root -> sub/a.bop -> deep/b.bop -> c.bop, each next to its importer) served from a virtual file system, opens each file relative to its importer, and in both modes the emitted file type-checks; combined mode declares every type the imported files define. NOT decided: 'exactly when cyclic' for files without go_package (node \"\"); wire equivalence with the inlined schema (C01-C03 on the concatenation).")
 	p := loadRepo(c)
 	if p == nil {
 		return
@@ -34,44 +35,55 @@ func checkC18(c *core.Ctx) {
 	// the worklist loop: `for i := 0; i < len(W); i++` whose body appends to W
 	var loop *ast.ForStmt
 	var work types.Object
-	ast.Inspect(gen.Body, func(n ast.Node) bool {
-		f, ok := n.(*ast.ForStmt)
-		if !ok || loop != nil || f.Cond == nil {
-			return loop == nil
+	host := gen // the function that holds the worklist loop: Generate or a helper it calls
+	for _, cand := range declClosure(p, pkg, gen, 2) {
+		if loop != nil {
+			break
 		}
-		be, ok := ast.Unparen(f.Cond).(*ast.BinaryExpr)
-		if !ok || be.Op != token.LSS {
-			return true
-		}
-		call, ok := ast.Unparen(be.Y).(*ast.CallExpr)
-		if !ok || wire.Canon(call.Fun) != "len" || len(call.Args) != 1 {
-			return true
-		}
-		id, ok := ast.Unparen(call.Args[0]).(*ast.Ident)
-		if !ok {
-			return true
-		}
-		w := info.ObjectOf(id)
-		grows := false
-		ast.Inspect(f.Body, func(m ast.Node) bool {
-			if as, ok := m.(*ast.AssignStmt); ok && len(as.Lhs) == 1 && len(as.Rhs) == 1 {
-				if l, ok := as.Lhs[0].(*ast.Ident); ok && info.ObjectOf(l) == w {
-					if ap, ok := as.Rhs[0].(*ast.CallExpr); ok && wire.Canon(ap.Fun) == "append" {
-						grows = true
+		candFd := cand
+		ast.Inspect(cand.Body, func(n ast.Node) bool {
+			f, ok := n.(*ast.ForStmt)
+			if !ok || loop != nil || f.Cond == nil {
+				return loop == nil
+			}
+			// the condition measures the worklist: i < len(W), len(W) > 0, len(W) != 0
+			var id *ast.Ident
+			ast.Inspect(f.Cond, func(k ast.Node) bool {
+				if call, isC := k.(*ast.CallExpr); isC && wire.Canon(call.Fun) == "len" && len(call.Args) == 1 {
+					if i, isI := ast.Unparen(call.Args[0]).(*ast.Ident); isI {
+						id = i
 					}
 				}
+				return true
+			})
+			if id == nil {
+				return true
 			}
-			return true
+			w := info.ObjectOf(id)
+			grows := false
+			ast.Inspect(f.Body, func(m ast.Node) bool {
+				if as, ok := m.(*ast.AssignStmt); ok && len(as.Lhs) == 1 && len(as.Rhs) == 1 {
+					if l, ok := as.Lhs[0].(*ast.Ident); ok && info.ObjectOf(l) == w {
+						if ap, ok := as.Rhs[0].(*ast.CallExpr); ok && wire.Canon(ap.Fun) == "append" {
+							grows = true
+						}
+					}
+				}
+				return true
+			})
+			if grows {
+				loop, work = f, w
+				host = candFd
+			}
+			return loop == nil
 		})
-		if grows {
-			loop, work = f, w
-		}
-		return loop == nil
-	})
+	}
 	if loop == nil {
 		c.Undecide("the import worklist loop of File.Generate was not found")
+		importScenarioRules(c, p)
 		return
 	}
+	_ = host
 	// positions of the interesting statements inside the loop body
 	idx := map[string]int{"miss": -1, "append": -1, "mark": -1, "edge": -1, "join": -1}
 	var joinCall *ast.CallExpr
@@ -145,15 +157,52 @@ func checkC18(c *core.Ctx) {
 	if joinCall == nil || len(joinCall.Args) < 2 || elemVar == nil {
 		c.Undecide("import path construction not recognised (filepath.Join / worklist element)")
 	} else {
-		dependsOnElem := false
-		ast.Inspect(joinCall.Args[0], func(n ast.Node) bool {
-			if id, ok := n.(*ast.Ident); ok && info.ObjectOf(id) == elemVar {
-				dependsOnElem = true
+		// values derived from the worklist element inside the loop body
+		derived := map[types.Object]bool{elemVar: true}
+		var dep func(e ast.Expr) bool
+		dep = func(e ast.Expr) bool {
+			found := false
+			ast.Inspect(e, func(n ast.Node) bool {
+				if id, ok := n.(*ast.Ident); ok && derived[info.ObjectOf(id)] {
+					found = true
+				}
+				return !found
+			})
+			return found
+		}
+		for changed := true; changed; {
+			changed = false
+			ast.Inspect(loop.Body, func(n ast.Node) bool {
+				if as, ok := n.(*ast.AssignStmt); ok && as.Tok == token.DEFINE && len(as.Rhs) == 1 {
+					if dep(as.Rhs[0]) {
+						for _, l := range as.Lhs {
+							if id, ok := l.(*ast.Ident); ok && id.Name != "_" && !derived[info.ObjectOf(id)] {
+								derived[info.ObjectOf(id)] = true
+								changed = true
+							}
+						}
+					}
+				}
+				return true
+			})
+		}
+		// every directory a path is joined to inside the loop comes from the
+		// element being expanded (the importing file), at every level
+		nJoin := 0
+		ast.Inspect(loop.Body, func(n ast.Node) bool {
+			call, ok := n.(*ast.CallExpr)
+			if !ok {
+				return true
 			}
+			cal := load.Callee(info, call)
+			if cal == nil || cal.Pkg() == nil || cal.Pkg().Path() != "path/filepath" || cal.Name() != "Join" || len(call.Args) < 2 {
+				return true
+			}
+			nJoin++
+			c.Check("R2", fmt.Sprintf("an import is resolved relative to the importing file (Join #%d)", nJoin), p.Pos(call.Pos()), dep(call.Args[0]),
+				"the directory joined with the import path ("+wire.Canon(call.Args[0])+") does not come from the file being expanded: an import inside a file of another directory is looked up in the wrong place")
 			return true
 		})
-		c.Check("R2", "an import is resolved relative to the importing file", p.Pos(joinCall.Pos()), dependsOnElem,
-			"the directory joined with the import path ("+wire.Canon(joinCall.Args[0])+") is computed once from the root file: an import inside a file of another directory is looked up in the wrong place")
 	}
 	// ---- R4
 	fileT, _ := pkg.Types.Scope().Lookup("File").(*types.TypeName)
@@ -221,18 +270,33 @@ func checkC18(c *core.Ctx) {
 		}
 	}
 	// FindCycle runs under `if <settings>.ImportGenerationMode == ImportGenerationModeSeparate`,
-	// its error is returned, and no output has been written yet
+	// its error is returned, and no output has been written yet; the test may
+	// live in the helper that loads the imports
 	var cyclePos, firstWrite token.Pos
 	guard := false
 	ast.Inspect(gen.Body, func(n ast.Node) bool {
-		switch x := n.(type) {
-		case *ast.CallExpr:
-			if cal := load.Callee(info, x); cal != nil {
-				if cal.Name() == "writeLine" && (firstWrite == 0 || x.Pos() < firstWrite) {
-					firstWrite = x.Pos()
-				}
+		if call, ok := n.(*ast.CallExpr); ok {
+			if cal := load.Callee(info, call); cal != nil && cal.Name() == "writeLine" && (firstWrite == 0 || call.Pos() < firstWrite) {
+				firstWrite = call.Pos()
 			}
-		case *ast.IfStmt:
+		}
+		return true
+	})
+	isFindCycle := func(e ast.Expr) bool {
+		call, ok := ast.Unparen(e).(*ast.CallExpr)
+		if !ok {
+			return false
+		}
+		cal := load.Callee(info, call)
+		return cal != nil && cal.Name() == "FindCycle"
+	}
+	for _, d := range declClosure(p, pkg, gen, 2) {
+		d := d
+		ast.Inspect(d.Body, func(n ast.Node) bool {
+			x, ok := n.(*ast.IfStmt)
+			if !ok {
+				return true
+			}
 			be, ok := ast.Unparen(x.Cond).(*ast.BinaryExpr)
 			if !ok || be.Op != token.EQL {
 				return true
@@ -241,25 +305,45 @@ func checkC18(c *core.Ctx) {
 			if !ok || sel.Sel.Name != "ImportGenerationMode" || wire.Canon(be.Y) != "ImportGenerationModeSeparate" {
 				return true
 			}
+			returned := false
 			for _, st := range x.Body.List {
-				inner, ok := st.(*ast.IfStmt)
-				if !ok || inner.Init == nil || !endsInReturn(inner.Body) {
-					continue
-				}
-				if as, ok := inner.Init.(*ast.AssignStmt); ok && len(as.Rhs) == 1 {
-					if call, ok := as.Rhs[0].(*ast.CallExpr); ok {
-						if cal := load.Callee(info, call); cal != nil && cal.Name() == "FindCycle" {
-							if _, isErr := errNilTest(info, inner.Cond); isErr && !lastResultIsNil(inner.Body.List[len(inner.Body.List)-1].(*ast.ReturnStmt)) {
-								guard = true
-								cyclePos = call.Pos()
-							}
+				switch y := st.(type) {
+				case *ast.ReturnStmt:
+					// return graph.FindCycle()
+					if len(y.Results) == 1 && isFindCycle(y.Results[0]) {
+						returned = true
+					}
+				case *ast.IfStmt:
+					// if err := graph.FindCycle(); err != nil { return err }
+					if as, isA := y.Init.(*ast.AssignStmt); isA && len(as.Rhs) == 1 && isFindCycle(as.Rhs[0]) && endsInReturn(y.Body) {
+						if _, isErr := errNilTest(info, y.Cond); isErr && !lastResultIsNil(y.Body.List[len(y.Body.List)-1].(*ast.ReturnStmt)) {
+							returned = true
 						}
 					}
 				}
 			}
-		}
-		return true
-	})
+			if !returned {
+				return true
+			}
+			if d == gen {
+				guard, cyclePos = true, x.Pos()
+				return true
+			}
+			// in a helper: its call in Generate is what happens "before any output",
+			// and the helper's error must leave Generate
+			ast.Inspect(gen.Body, func(k ast.Node) bool {
+				call, isC := k.(*ast.CallExpr)
+				if !isC {
+					return true
+				}
+				if cal := load.Callee(info, call); cal != nil && types.Object(cal) == info.ObjectOf(d.Name) {
+					guard, cyclePos = true, call.Pos()
+				}
+				return true
+			})
+			return true
+		})
+	}
 	c.Check("R4", "import cycles are searched in separate mode, before any output", p.Pos(gen.Pos()), guard && cyclePos < firstWrite && firstWrite != 0,
 		"FindCycle must run when (and only when) the mode is separate, its error must be returned, and nothing may have been written before")
 
@@ -318,6 +402,10 @@ func checkC18(c *core.Ctx) {
 		if m != stack {
 			visited = m
 		}
+	}
+	if node != nil && len(maps) == 1 && stack == nil {
+		colourDFS(c, p, ig, fc, node, maps[0])
+		return
 	}
 	if node == nil || stack == nil || visited == nil || len(maps) != 2 {
 		c.Undecide("findCycle: node / stack / visited parameters not recognised")
@@ -413,7 +501,9 @@ func checkC18(c *core.Ctx) {
 	}
 	stackTest, recurse, visitedSkip := -1, -1, -1
 	for i, s := range rng.Body.List {
-		if memberTest(s, stack, func(b *ast.BlockStmt) bool { return endsInReturn(b) && !lastResultIsNil(b.List[len(b.List)-1].(*ast.ReturnStmt)) }) {
+		if memberTest(s, stack, func(b *ast.BlockStmt) bool {
+			return endsInReturn(b) && !lastResultIsNil(b.List[len(b.List)-1].(*ast.ReturnStmt))
+		}) {
 			stackTest = i
 		}
 		if memberTest(s, visited, endsInContinue) {
@@ -495,9 +585,9 @@ func importScenarioRules(c *core.Ctx, p *load.Prog) {
 				c.Undecide("import scenario (%s): %v", mode, ir.Root.EvalErr)
 				continue
 			}
-			want := []string{genfacts.ImpAPath, genfacts.ImpBPath}
+			want := []string{genfacts.ImpAPath, genfacts.ImpBPath, genfacts.ImpCPath}
 			c.Check("R6", "import scenario ("+mode+"): files are opened relative to their importer", pos, fmt.Sprint(ir.Opened) == fmt.Sprint(want),
-				fmt.Sprintf("opened %v, expected %v (b.bop is imported by sub/a.bop and lies next to it)", ir.Opened, want))
+				fmt.Sprintf("opened %v, expected %v (sub/a.bop imports deep/b.bop, which imports c.bop lying next to it)", ir.Opened, want))
 			c.Check("R6", "import scenario ("+mode+"): Generate succeeds", pos, ir.Root.GenErr == "", "Generate returned: "+ir.Root.GenErr)
 			if ir.Root.GenErr != "" {
 				continue
@@ -511,7 +601,7 @@ func importScenarioRules(c *core.Ctx, p *load.Prog) {
 			}
 			c.Check("R6", "import scenario ("+mode+"): the emitted file type-checks", pos, ok, "options "+o.String()+": "+msg)
 			if combined && ir.Root.Pkg != nil {
-				for _, name := range []string{"ISt", "IMs", "IUn", "IUb", "IBs", "IEn", "RS", "RM"} {
+				for _, name := range []string{"ISt", "IMs", "IUn", "IUb", "IBs", "ICs", "IEn", "RS", "RM"} {
 					obj := ir.Root.Pkg.Scope().Lookup(genfacts.GoTypeName(name, o))
 					c.Check("R6", "combined mode declares imported type "+name, pos, obj != nil, "the single file combined mode emits does not declare a type an imported file defines")
 				}
@@ -520,4 +610,176 @@ func importScenarioRules(c *core.Ctx, p *load.Prog) {
 	}
 	c.Count("import_scenarios", n)
 	c.Floor("import_scenarios", 4)
+}
+
+
+// colourDFS: the same discipline (R3) for the three-colour formulation of the
+// search: one map from node to state; the node is marked in-progress on entry
+// and given another state on every non-cycle exit; an edge into an in-progress
+// node returns the cycle; only unseen nodes are descended into.
+func colourDFS(c *core.Ctx, p *load.Prog, ig *packages.Package, fc *ast.FuncDecl, node, state types.Object) {
+	info := ig.TypesInfo
+	fpos := p.Pos(fc.Pos())
+	constOf := func(e ast.Expr) (string, bool) {
+		tv := info.Types[e]
+		if tv.Value == nil {
+			return "", false
+		}
+		return tv.Value.ExactString(), true
+	}
+	// stores state[node] = <const>
+	storeOf := func(n ast.Node) (string, bool) {
+		as, ok := n.(*ast.AssignStmt)
+		if !ok || len(as.Lhs) != 1 || len(as.Rhs) != 1 {
+			return "", false
+		}
+		ix, ok := as.Lhs[0].(*ast.IndexExpr)
+		if !ok {
+			return "", false
+		}
+		a, ok1 := ast.Unparen(ix.X).(*ast.Ident)
+		b, ok2 := ast.Unparen(ix.Index).(*ast.Ident)
+		if !ok1 || !ok2 || info.ObjectOf(a) != state || info.ObjectOf(b) != node {
+			return "", false
+		}
+		return constOf(as.Rhs[0])
+	}
+	inProg := ""
+	pushAt, rngAt := -1, -1
+	var rng *ast.RangeStmt
+	for i, st := range fc.Body.List {
+		if v, ok := storeOf(st); ok && inProg == "" && rng == nil {
+			inProg, pushAt = v, i
+		}
+		if r, ok := st.(*ast.RangeStmt); ok && rng == nil {
+			rng, rngAt = r, i
+		}
+	}
+	c.Check("R3", "findCycle pushes the node before exploring its edges", fpos, pushAt >= 0 && rngAt > pushAt, "the node is not marked in-progress before its edges are followed")
+	if rng == nil || inProg == "" {
+		c.Undecide("findCycle (colour form): entry mark or edge loop not recognised")
+		return
+	}
+	// every `return nil` after the push passes a store of a state other than in-progress
+	if f := buildCFG(p, ig, fc); f != nil {
+		var start *cfg.Block
+		startIdx := 0
+		for _, b := range f.g.Blocks {
+			for i, n := range b.Nodes {
+				if v, ok := storeOf(n); ok && v == inProg {
+					start, startIdx = b, i+1
+				}
+			}
+		}
+		okPath := start != nil
+		var bad []string
+		if start != nil {
+			f.reach(start, startIdx, func(n ast.Node) bool {
+				v, ok := storeOf(n)
+				return ok && v != inProg
+			}, func(r *ast.ReturnStmt, path []*cfg.Block) {
+				if r != nil && lastResultIsNil(r) {
+					okPath = false
+					bad = append(bad, p.Pos(r.Pos()))
+				}
+			})
+		}
+		c.Check("R3", "findCycle pops the node on the non-cycle exit", fpos, okPath, "a node left in-progress makes every later path through it look like a cycle")
+		c.Check("R3", "every non-cycle return of findCycle pops the node first", fpos, okPath, fmt.Sprintf("`return nil` at %v is reachable with the node still marked in-progress", bad))
+	}
+	var to types.Object
+	if id, ok := rng.Value.(*ast.Ident); ok {
+		to = info.ObjectOf(id)
+	}
+	isStateOfTo := func(e ast.Expr) bool {
+		ix, ok := ast.Unparen(e).(*ast.IndexExpr)
+		if !ok {
+			return false
+		}
+		a, ok1 := ast.Unparen(ix.X).(*ast.Ident)
+		b, ok2 := ast.Unparen(ix.Index).(*ast.Ident)
+		return ok1 && ok2 && info.ObjectOf(a) == state && info.ObjectOf(b) == to
+	}
+	recurses := func(n ast.Node) bool {
+		return containsCall(n, func(call *ast.CallExpr) bool {
+			cal := load.Callee(info, call)
+			return cal != nil && types.Object(cal) == info.ObjectOf(fc.Name)
+		})
+	}
+	cycleTest, guardedDescent := false, false
+	for _, st := range rng.Body.List {
+		switch x := st.(type) {
+		case *ast.SwitchStmt:
+			if x.Tag == nil || !isStateOfTo(x.Tag) {
+				continue
+			}
+			for _, cc := range x.Body.List {
+				cl := cc.(*ast.CaseClause)
+				var vals []string
+				for _, e := range cl.List {
+					if v, ok := constOf(e); ok {
+						vals = append(vals, v)
+					}
+				}
+				isInProg := len(vals) == 1 && vals[0] == inProg
+				if isInProg && len(cl.Body) > 0 {
+					if r, ok := cl.Body[len(cl.Body)-1].(*ast.ReturnStmt); ok && !lastResultIsNil(r) {
+						cycleTest = true
+					}
+				}
+				if recurses(cl) {
+					// descent only for the zero (unseen) state
+					guardedDescent = len(vals) == 1 && vals[0] == "0"
+				}
+			}
+		case *ast.IfStmt:
+			be, ok := ast.Unparen(x.Cond).(*ast.BinaryExpr)
+			if !ok || !isStateOfTo(be.X) {
+				continue
+			}
+			v, isC := constOf(be.Y)
+			if !isC {
+				continue
+			}
+			if be.Op == token.EQL && v == inProg && endsInReturn(x.Body) && !lastResultIsNil(x.Body.List[len(x.Body.List)-1].(*ast.ReturnStmt)) && !guardedDescent {
+				cycleTest = true
+			}
+			if be.Op == token.EQL && v == "0" && recurses(x.Body) {
+				guardedDescent = true
+			}
+			if be.Op == token.NEQ && v == "0" && len(x.Body.List) > 0 {
+				if br, ok := x.Body.List[len(x.Body.List)-1].(*ast.BranchStmt); ok && br.Tok == token.CONTINUE {
+					guardedDescent = true
+				}
+			}
+		}
+	}
+	c.Check("R3", "findCycle tests the stack before recursing", fpos, cycleTest, "an edge into a node that is in progress must return the cycle")
+	c.Check("R3", "findCycle does not descend into nodes already explored", fpos, guardedDescent,
+		"the recursive call is not restricted to unseen nodes: a node reachable along k paths is explored k times, which is exponential on layered diamond-shaped import graphs")
+	if top := p.FuncDecl(ig, "dgraph.FindCycle"); top != nil {
+		skips, starts := false, false
+		ast.Inspect(top.Body, func(n ast.Node) bool {
+			r, ok := n.(*ast.RangeStmt)
+			if !ok {
+				return true
+			}
+			for _, st := range r.Body.List {
+				if ifs, ok := st.(*ast.IfStmt); ok && len(ifs.Body.List) > 0 {
+					if br, ok := ifs.Body.List[len(ifs.Body.List)-1].(*ast.BranchStmt); ok && br.Tok == token.CONTINUE {
+						if be, ok := ast.Unparen(ifs.Cond).(*ast.BinaryExpr); ok && be.Op == token.NEQ {
+							if v, isC := constOf(be.Y); isC && v == "0" {
+								skips = true
+							}
+						}
+					}
+				}
+				if recurses(st) {
+					starts = true
+				}
+			}
+			return true
+		})
+		c.Check("R3", "FindCycle starts a search from every unvisited node", p.Pos(top.Pos()), skips && starts, fmt.Sprintf("skips seen start nodes: %v; starts findCycle from the loop's node: %v", skips, starts))
+	}
 }
